@@ -192,7 +192,7 @@ def run_naction(rng, policy, mid, ctx, outcome, n=3, split='mixed'):
     sub = S.SubAssociation(ae, None)
     extra = {}
     try:
-        S.sopclass.StorageCommitment.n_action(a, S.ctx_def(ctx, COMMIT), msg)
+        S.sopclass.StorageCommitment()(a, S.ctx_def(ctx, COMMIT), msg)          # the way the handler loop calls it
     except Exception as exc:      # noqa
         extra['raised'] = 'n_action raised %s: %s' % (type(exc).__name__, exc)
     a.dul.drain()
@@ -216,6 +216,74 @@ def run_naction(rng, policy, mid, ctx, outcome, n=3, split='mixed'):
             if w.type != 0x0100 or w.u16(cmdset.TAG_EVENT_TYPE) != (2 if bad else 1):
                 extra['report'] = 'N-EVENT-REPORT type / event type id wrong (%#x, %d)' % (w.type, w.u16(cmdset.TAG_EVENT_TYPE))
     return finish(tr + rsp_events(a), a), extra
+
+
+def run_commit_concurrent(rng, mids, kind='naction'):
+    """ONE StorageCommitment service object (as registered on an entity) serves two associations whose requests overlap:
+    the first request's application handler is still running when the second request is dispatched.  Returns one trace
+    per request."""
+    import threading
+    service = S.sopclass.StorageCommitment()
+    entered, go = threading.Event(), threading.Event()
+    assocs, traces, errs = [], [], []
+    for k, mid in enumerate(mids):
+        ae = S.ScriptAE()
+        first = (k == 0)
+
+        def on_rq(remote_ae, uids, first=first):
+            if first:
+                entered.set()
+                go.wait(10)
+            else:
+                go.set()
+            return {'aet': 'REMOTE', 'address': 'h', 'port': 1}, list(uids), None
+
+        def on_rsp(transaction_uid, success, failure, first=first):
+            list(success), list(failure)
+            if first:
+                entered.set()
+                go.wait(10)
+            else:
+                go.set()
+        ae.on_commitment_request = on_rq
+        ae.on_commitment_response = on_rsp
+        a = S.make_association(ae, 'eager')
+        ctx = [1, 3][k]
+        if kind == 'naction':
+            ds = commit_dataset(rng, 2)
+            msg = S.decode_message(S.request_bytes(0x0130, mid, COMMIT, COMMIT_INST, extra=[(cmdset.TAG_ACTION_TYPE, cmdset.us(1))]), enc(ds), ctx)
+            req = {'type': 0x0130, 'ctx': ctx, 'mid': mid, 'cls': COMMIT, 'inst': COMMIT_INST}
+            svc = 'naction'
+        else:
+            ds = pydicom.Dataset()
+            ds.TransactionUID = '1.2.3.777.%d' % k
+            item = pydicom.Dataset()
+            item.ReferencedSOPClassUID, item.ReferencedSOPInstanceUID = SR, '1.2.3.9.%d' % k
+            ds.ReferencedSOPSequence = pydicom.Sequence([item])
+            msg = S.decode_message(S.request_bytes(0x0100, mid, COMMIT, COMMIT_INST, extra=[(cmdset.TAG_EVENT_TYPE, cmdset.us(1))]), enc(ds), ctx)
+            req = {'type': 0x0100, 'ctx': ctx, 'mid': mid, 'cls': COMMIT, 'inst': COMMIT_INST}
+            svc = 'nevent'
+        assocs.append((a, ctx, msg, req, svc))
+
+    def worker(k):
+        a, ctx, msg, req, svc = assocs[k]
+        try:
+            service(a, S.ctx_def(ctx, COMMIT), msg)
+        except Exception as exc:      # noqa
+            errs.append('%s: %s' % (type(exc).__name__, exc))
+    t1 = threading.Thread(target=worker, args=(0,))
+    t1.start()
+    entered.wait(10)
+    t2 = threading.Thread(target=worker, args=(1,))
+    t2.start()
+    t1.join(20)
+    t2.join(20)
+    go.set()
+    for a, ctx, msg, req, svc in assocs:
+        a.dul.drain()
+        tr = [{'ev': 'Req', 'svc': svc, 'req': req}, {'ev': 'Handler', 'status': 0}]
+        traces.append(finish(tr + rsp_events(a), a))
+    return traces, errs
 
 
 def run_nevent(rng, policy, mid, ctx, outcome, n=2, shape='success'):
@@ -246,7 +314,7 @@ def run_nevent(rng, policy, mid, ctx, outcome, n=2, shape='success'):
           {'ev': 'Handler', 'status': DOCUMENTED_FAILURE['nevent'] if outcome == 'EHE' else 0}]
     extra = {}
     try:
-        S.sopclass.StorageCommitment.n_event_report(a, S.ctx_def(ctx, COMMIT), msg)
+        S.sopclass.StorageCommitment()(a, S.ctx_def(ctx, COMMIT), msg)
     except Exception as exc:      # noqa
         extra['raised'] = 'n_event_report raised %s: %s (report shape %s)' % (type(exc).__name__, exc, shape)
     a.dul.drain()
@@ -259,7 +327,7 @@ def run_nevent(rng, policy, mid, ctx, outcome, n=2, shape='success'):
 
 # ------------------------------------------------------------------ C-FIND / worklist
 
-def run_find_scp(rng, policy, mid, ctx, matches, worklist=False, max_len=16384):
+def run_find_scp(rng, policy, mid, ctx, matches, worklist=False, max_len=16384, ctx_sop=None):
     """matches: list of (pending status code, size hint).  max_len 'fit' / 'fit2': the maximum is chosen so that the
     first identifier fills exactly one / two fragments."""
     sop = MWL if worklist else FIND
@@ -280,7 +348,8 @@ def run_find_scp(rng, policy, mid, ctx, matches, worklist=False, max_len=16384):
     tr = [{'ev': 'Req', 'svc': 'mwl' if worklist else 'find', 'req': {'type': 0x0020, 'ctx': ctx, 'mid': mid, 'cls': sop, 'inst': ''}}]
     for ds, st in results:
         tr.append({'ev': 'Match', 'd': S.token(enc(ds)), 's': int(st)})
-    (sopclass.modality_work_list_scp if worklist else sopclass.qr_find_scp)(a, S.ctx_def(ctx, sop), msg)
+    # ctx_sop: the request names one find class, the context it arrives on was negotiated for another one
+    (sopclass.modality_work_list_scp if worklist else sopclass.qr_find_scp)(a, S.ctx_def(ctx, ctx_sop or sop), msg)
     a.dul.drain()
     extra = {}
     if seen.get('query') != enc(query):
